@@ -86,6 +86,43 @@ def run(ctx):
                 what = rep or ("exit status %s" % r["rc"] if r["rc"] != 0 else "no bestmove for: %s" % r["missing_bestmove"][:2])
                 ctx.violation("sanitizer session '%s' failed: %s" % (name, what),
                               {"session": [c[:300] for c in script], "stderr": r["stderr"][-3000:], "rc": r["rc"], "log_tail": r["log"][-15:]}, key="c10:uci:" + name)
+    # ---- quit while a search is running (GUIs do that): the process must end cleanly - no sanitizer report from the search thread
+    #      touching objects the exiting main thread has destroyed ----
+    import subprocess
+    import time as _time
+
+    def quit_while_searching(args):
+        fen, go, delay = args
+        p_ = subprocess.Popen([exe], stdin=subprocess.PIPE, stdout=subprocess.PIPE, stderr=subprocess.PIPE, env=dict(os.environ, **SAN_ENV))
+        try:
+            p_.stdin.write(("position fen %s\n%s\n" % (fen, go)).encode())
+            p_.stdin.flush()
+            _time.sleep(delay)
+            p_.stdin.write(b"quit\n")
+            p_.stdin.flush()
+            o_, e_ = p_.communicate(timeout=60)
+            return p_.returncode, e_.decode("utf8", "replace")
+        except subprocess.TimeoutExpired:
+            p_.kill()
+            return 124, "timeout after quit"
+        except OSError as ex_:
+            return 0, ""
+    # the window is a race between the exiting main thread and the still-unwinding search thread: many sessions, heavily
+    # oversubscribed (64 at a time on 16 cores), with the delay swept over 50..250 ms
+    nqs = 480 if q else 3000
+    qjobs = [([posgen.START, posgen.CLASSIC[1]][i % 2], ("go infinite", "go depth 30", "go movetime 5000")[i % 3], 0.05 + 0.01 * (i % 20)) for i in range(nqs)]
+    with concurrent.futures.ThreadPoolExecutor(max_workers=64) as ex:
+        qres = list(ex.map(quit_while_searching, qjobs))
+    nq = 0
+    for (f, g, d), (rc_, err_) in zip(qjobs, qres):
+        nq += 1
+        rep = sanitizer_report(err_)
+        if rep or rc_ not in (0,):
+            nviol += 1
+            if nviol <= 6:
+                ctx.violation("quit while searching ('%s', quit after %.2f s, position '%s'): %s" % (g, d, f, rep or "exit status %s" % rc_),
+                              {"session": ["position fen " + f, g, "(wait %.2f s)" % d, "quit"], "stderr": err_[-3000:], "rc": rc_}, key="c10:quit:%s:%s" % (g, f))
+    ctx.notes["quit_while_searching_sessions"] = nq
     # ---- in-process searches on the sanitizer build: generated positions, all limit shapes, poisoned tables ----
     fens = posgen.valid_positions(model, rng, 120 if q else 1500, extra=posgen.CLASSIC + many + ten)
     rc, res, err = run_lines(model, ["legal " + f for f in fens], shards=NPROC)
